@@ -83,17 +83,18 @@ func (w *World) rangeLoops(fi *FuncInfo, pred func(x ast.Expr) bool) []*ast.Rang
 			// inside a new function: the collection may be a parameter - judge what the
 			// call sites pass for it
 			if id, ok := ast.Unparen(r.X).(*ast.Ident); ok {
-				if _, exprs, ok := w.argsBoundTo(f.Pkg.TypesInfo.ObjectOf(id)); ok {
-					all := true
-					for _, e := range exprs {
-						if !pred(e) {
-							all = false
+				// (a helper shared by several loops - `reduceInOrder(m.RetVals)`, `reduceInOrder(m.Params)` -
+				// is this loop for the call from fi's region that passes the collection)
+				w.withHost(fi.Key, func() {
+					if _, exprs, ok := w.argsBoundTo(f.Pkg.TypesInfo.ObjectOf(id)); ok {
+						for _, e := range exprs {
+							if pred(e) {
+								out = append(out, r)
+								break
+							}
 						}
 					}
-					if all {
-						out = append(out, r)
-					}
-				}
+				})
 			}
 			return true
 		})
